@@ -17,7 +17,7 @@ EXPLANATION = (
     "C15.5 write_fmt returns the adapter's stored error when one was stored. "
     "C15.2 also: read_to_end reports success only after a read of zero bytes; C15.3 also: after valid data append_to_string returns the reader's own count; C15.5 also: every fmt::Write method of the adapter delivers through write_all and stores the writer's error. "
     "C15.3 also: read_to_string hands the caller's own reader to read_to_end (no adapter that looks at the chunks). "
-    "C15.4 also: read_exact calls the reader only while the buffer is not yet full. NOT decided: byte-exact delivery for every response script (a universally quantified run-time statement).")
+    "C15.4 also: read_exact calls the reader only while the buffer is not yet full. C15.2 also: the side read into the probe array is made only with the vector full; C15.6 try_print (behind print!/eprint!/dbg!) has no reachable panic and re-slices the unwritten remainder as bytes, never as &str. NOT decided: byte-exact delivery for every response script (a universally quantified run-time statement).")
 ASSUMPTIONS = ["ReadBuf keeps filled <= initialized <= capacity (its own assertions)", "Errno::EINTR == 4"]
 
 IO = "tiny_std::io::"
